@@ -453,6 +453,18 @@ def wrap_funnels(world: 'World') -> None:
         return o_stop(self, stop_mode)
     Scheduler._set_stop = _set_stop
 
+    o_pcq = Scheduler.process_command_queue
+
+    async def process_command_queue(self):
+        before = self.command_queue.qsize()
+        ret = await o_pcq(self)
+        w = _CUR[0]
+        n = before - self.command_queue.qsize()
+        if w is not None and n > 0:
+            w.emit('cmd_processed', n=n)
+        return ret
+    Scheduler.process_command_queue = process_command_queue
+
     o_stall = Scheduler.check_workflow_stalled
 
     def check_workflow_stalled(self):
